@@ -1,8 +1,8 @@
-\* packet rule (C08): one active TSS tunnel, two signals, prices straddling soft 300 / hard 3000 bps (and the
+\* packet rule (C08): one active TSS tunnel, one signal, prices straddling soft 300 / hard 3000 bps (and the
 \* swapped pair), intervals 2 and 3, missing feed and price 0, three route modes, funding around base+route
 CONSTANTS
   MaxTun = 1
-  Sig = {"s1", "s2"}
+  Sig = {"s1"}
   Acct = {a1, a2}
   Denom = {"ua", "ub"}
   FeeDenom = "ub"
@@ -18,10 +18,10 @@ CONSTANTS
   AmtSet <- Amt_zero
   FundSet = {7}
   PriceSet <- Price_pkt
-  ModeSet = {"ok", "noGroup", "noNonces"}
+  ModeSet = {"ok", "noNonces"}
   DtSet = {1, 2}
   InitBal = 3
-  MaxNow = 105
+  MaxNow = 104
   MaxSteps = 0
   NTun = 1
   InitFee = 14
